@@ -140,7 +140,7 @@ func addLeaf(t Tree, r *Route, s *Segment, h Handler) (Leaf, error) {
 			if err != nil {
 				return nil, errors.Wrap(err, "add optional leaf to grandparent")
 			}
-		} else {
+		} else if len(s.Elements) > 0 {
 			// The optional segment is the only segment of the route, the route without
 			// it is the root path "/".
 			short, err = addLeaf(parent, r, &Segment{Pos: s.Pos}, h)
@@ -149,8 +149,11 @@ func addLeaf(t Tree, r *Route, s *Segment, h Handler) (Leaf, error) {
 			}
 			leaves = t.getLeaves() // The leaf above has been added to the same list.
 		}
-		// Header matches of the route apply to both forms.
-		leaf.setOptionalLeaf(short)
+		// Header matches of the route apply to both forms. The route "/?" is the root
+		// path in both forms and has no other leaf.
+		if short != nil {
+			leaf.setOptionalLeaf(short)
+		}
 	}
 
 	// Determine leaf position by the priority of match styles.
